@@ -726,6 +726,75 @@ def run_ins_draw(c):
         model.paused = False
         draws.append(rec)
     out["draws"] = draws
+    # ---- ImportanceFlowProposal.draw_from_flows followed by the likelihood call of draw_final_samples -------------------
+    p.flow.sample_ith = real_sample
+    p.compute_log_Q = real_logQ
+    ff = []
+    for n, mode in c.get("from_flows", []):
+        rec = {"n": n, "mode": mode}
+        primes = []
+        real_inv = p.inverse_rescale
+
+        def inv(xp, _real=real_inv):
+            primes.append(np.array(xp, dtype=float).copy())
+            return _real(xp)
+
+        p.inverse_rescale = inv
+        model.rec = []
+        model.paused = False
+        s = None
+        try:
+            with np.errstate(all="ignore"):
+                if mode == "counts":
+                    s, lq, counts = p.draw_from_flows(n, counts=[n // 3, n - n // 3])
+                else:       # what draw_final_samples passes: an array of normalised weights
+                    s, lq, counts = p.draw_from_flows(n, weights=p.weights_array / p.weights_array.sum())
+                s["logL"] = model.batch_evaluate_log_likelihood(s, unit_hypercube=True)
+        except Exception as e:
+            rec["error"] = err(e) + ": " + str(e)[:200]
+        finally:
+            del p.inverse_rescale
+        model.paused = True
+        if primes:
+            prime = primes[0]
+            with np.errstate(all="ignore"):
+                x, ljinv = real_inv(prime.copy())
+                xc, lj = p.rescale(x)
+                inb = (model.in_unit_hypercube(x) & np.isfinite(xc).all(axis=1) & np.isfinite(prime).all(axis=1)
+                       & np.isfinite(lj) & np.isfinite(ljinv))
+                phys = model.from_unit_hypercube(x)
+                lp = model.raw_prior(phys)
+                lqa = np.zeros((len(prime), p.n_proposals))
+                if p.n_proposals > 1:
+                    lqa[:, 1:] = p.flow.log_prob_all(prime) + lj[:, np.newaxis]
+                ok2 = ~np.isnan(lqa).all(axis=1) & ~np.isposinf(lqa).all(axis=1)
+            pkeys = keys_of(phys)
+            keymap = {k: i for i, k in enumerate(pkeys)}
+            rec["cands"] = [[i, fx(0.0) if ok2[i] else "nan", fx(0.0), bool(inb[i]), fx(lp[i])] for i in range(len(prime))]
+            rec["n_outside_cube"] = int((~model.in_unit_hypercube(x)).sum())
+            if s is not None:
+                ph = model.from_unit_hypercube(s)
+                rec["out"] = [keymap.get(k, -1) for k in keys_of(ph)]
+                with np.errstate(all="ignore"):
+                    rec["out_inb"] = [bool(b) for b in model.in_bounds(ph)]
+                    rec["out_logP_model"] = [fx(v) for v in model.raw_prior(ph)]
+                    rec["out_logP"] = [fx(v) for v in s["logP"]]
+                bad = []
+                nl = 0
+                for what, ks, _ in model.rec:
+                    if what != "lik":
+                        continue
+                    nl += len(ks)
+                    pts = numpy_array_to_live_points(np.array(ks, dtype=float).reshape(-1, 2), model.names)
+                    with np.errstate(all="ignore"):
+                        okp = model.in_bounds(pts) & np.isfinite(model.raw_prior(pts))
+                    bad += [list(k) for k, o_ in zip(ks, okp) if not o_]
+                rec["lik_points"] = nl
+                rec["lik_outside"] = bad[:5]
+                rec["n_lik_outside"] = len(bad)
+        model.paused = False
+        ff.append(rec)
+    out["from_flows"] = ff
     return out
 
 
